@@ -12,7 +12,7 @@ from . import c04, c13
 ID = 'C05'
 LEVEL = 'exploration'
 RULE = ('Hypothesis draws (stylesheet, document, parameter) - the stylesheet composed of 2-4 order- and identity-sensitive observation templates (axes, '
-        'position(), keys, xsl:number, sort, copy-of, string values; optionally split over an imported module and using document()) - and a supply form '
+        'position(), keys, xsl:number, sort, copy-of, string values, and unions that mix an element with its own attributes, owner and neighbours so that the document order among them shows; optionally split over an imported module and using document()) - and a supply form '
         'from the product {source: stream, file, parseSource native, parseSource Xerces, XercesDOMWrapperParsedSource, XalanSourceTreeWrapperParsedSource, '
         'XalanDocumentBuilder fed by SAX2} x {stylesheet: stream, file, compiled, xml-stylesheet PI} x {result: ostream, file (2 overloads), chunked '
         'callback, FormatterListener, FormatterToXercesDOM, FormatterToSourceTree} x {C++ API, C API (ToFile, ToData, ToHandler, prebuilt forms), the '
@@ -29,6 +29,22 @@ PI_FORMS = ['<?xml-stylesheet type="text/xsl" href="main.xsl"?>', '<?xml-stylesh
             '<?xml-stylesheet alternate="no" type="text/xsl" title="t" href="main.xsl"?>']
 OUTFORMS = ['stream', 'file', 'cfile', 'callback', 'events', 'xercesdom', 'sourcetree']
 CAPI = ['tofile', 'todata', 'tohandler', 'prebuilt-data', 'prebuilt-handler', 'prebuilt-file']
+# C05's own observers (appended to C13's, so the indices of saved cases keep their meaning): the document order AMONG an element, its attributes
+# and its neighbours - unions that mix a node with its own attributes / owner, whole-document unions of attributes and nodes, positions inside
+# such unions.  The source forms derive that order differently (stored index of the native tree, index assigned by the Xerces wrapper's build
+# walk, structural comparison), and no whitespace observer looks at it.  (wave 5: xerces-wrapper-element-shares-index-with-first-attr was missed)
+# the relative order of the attributes of ONE element is implementation-dependent (XPath 5.3) and does differ between the native tree and a
+# Xerces DOM: no observer may print which attribute comes first / last, only whether a node is an attribute (KIND) and counts
+KIND = "concat(name(self::*), substring('@', 1, number(count(.|../@*) = count(../@*))))"
+ORDER_OBSERVERS = [
+    '<xsl:for-each select="//*"><u c="{count(.|@*)}" d="{count(@*|.|..)}" f="{name((.|@*)[1])}" l="{count((@*|.)[last()]|@*) = count(@*)}" s="{count(.|@*[1])}" o="{name((..|@*)[1])}"/></xsl:for-each>',
+    '<xsl:for-each select="//@*"><ua c="{count(..|.)}" f="{name((..|.)[1])}" p="{count(../@*|.)}" q="{count(.|../node())}" r="{count((../node()|.)[1]|../@*) = count(../@*)}" x="{count(..|../@*[last()])}"/></xsl:for-each>',
+    '<xsl:for-each select="//@*|//node()"><o><xsl:value-of select="concat(%s, \':\', position(), \'/\', last())"/></o></xsl:for-each>' % KIND,
+    '<xsl:for-each select="//*/@*[1]|//*"><o1 n="{%s}" p="{position()}" a="{count(../@*)}"/></xsl:for-each>' % KIND,
+    '<xsl:for-each select="//*"><pr a="{count(preceding::*/@*|@*|.)}" b="{count((ancestor-or-self::*/@*|ancestor-or-self::*)[last()]|@*|.) = count(@*|.)}" c="{count((following::*[1]|@*|following::*[1]/@*)[1]|@*) = count(@*)}" d="{count(descendant-or-self::*|descendant-or-self::*/@*)}"/></xsl:for-each>',
+    '<ko><xsl:for-each select="key(\'ev\', //*)|//@*"><xsl:value-of select="concat(%s, \',\')"/></xsl:for-each></ko>' % KIND,
+]
+OBSERVERS = list(c13.OBSERVERS) + ORDER_OBSERVERS
 OPEN = set()
 _loaded = []
 
@@ -50,7 +66,7 @@ def budget(tier):
 @st.composite
 def cases(draw):
     xml = draw(gen_xml.documents(max_nodes=draw(st.sampled_from([15, 40, 150])), ids=False, astral=False, cdata=False, ws_rich=draw(st.booleans()), odd_names=False))
-    obs = draw(st.lists(st.integers(0, len(c13.OBSERVERS) - 1), min_size=2, max_size=4, unique=True))
+    obs = draw(st.lists(st.integers(0, len(OBSERVERS) - 1), min_size=2, max_size=4, unique=True))
     api = draw(st.sampled_from(['cpp', 'cpp', 'cpp', 'cpp', 'capi', 'cli']))
     form = {'api': api}
     if api == 'cpp':
@@ -73,7 +89,7 @@ def strategy(ctx):
 
 def stylesheet(case):
     head = '<xsl:stylesheet version="1.0" xmlns:xsl="%s" xmlns:p="urn:p" xmlns:q="urn:q" exclude-result-prefixes="p q">' % XSL
-    body = ''.join(c13.OBSERVERS[i] for i in case['obs'])
+    body = ''.join(OBSERVERS[i] for i in case['obs'])
     if case['doc2']:
         body += '<d2><xsl:copy-of select="document(\'d2.xml\')//b[@i &gt; 1]"/><xsl:value-of select="count(document(\'d2.xml\')//node() | //node())"/></d2>'
     extra = '<xsl:param name="pp" select="0"/>'
